@@ -307,9 +307,10 @@ deriving Repr, DecidableEq
 structure Ing where
   name  : String
   rule  : String        -- host of the single rule
-  acme  : Bool          -- annotation cert-signer: acme
+  acme  : Bool          -- annotation cert-signer: acme (or kubernetes.io/tls-acme: "true")
   chain : String        -- annotation acme-preferred-chain
   tls   : List Tls
+  viaTlsAcme : Bool := false   -- which of the two annotations (only makes two objects differ)
 deriving Repr, DecidableEq
 
 abbrev World := List Ing      -- sorted by name, names unique
